@@ -142,6 +142,32 @@ def _keeps_source_name(source: str, prefix, derived: str) -> bool:
     return stem in derived
 
 
+def _enrich(v, top=True):
+    import numpy as np
+    if isinstance(v, dict):
+        out = {k: _enrich(x, False) for k, x in v.items()}
+        if top:
+            out.setdefault("np_vec", np.array([1.5, 2.5])); out.setdefault("np_mat", {"m": np.array([[1, 2], [3, 4]]), "where": Path("some/dir/file.txt")})
+            out.setdefault("np_num", [np.float64(2.5), np.int64(3)])
+        return out
+    if isinstance(v, list):
+        if v and all(isinstance(x, (int, float)) and not isinstance(x, bool) for x in v):
+            return np.array(v)
+        return [_enrich(x, False) for x in v]
+    return v
+
+
+def _typed(v):
+    """structure with the exact types of all values (a list is not an ndarray, a str is not a Path)"""
+    if isinstance(v, dict):
+        return ["dict:" + type(v).__name__, [[repr(k), _typed(x)] for k, x in v.items()]]
+    if isinstance(v, (list, tuple)):
+        return [type(v).__name__, [_typed(x) for x in v]]
+    if hasattr(v, "tolist") and hasattr(v, "dtype"):
+        return [type(v).__name__, str(v.dtype), repr(v.tolist())]
+    return [type(v).__name__, repr(v)]
+
+
 class _Unserialisable:
     def __str__(self):
         raise ValueError("cannot serialise")
@@ -269,14 +295,16 @@ def process(ctx: Ctx, cases: list[dict]) -> None:
                     ctx.violation("load created, modified or deleted something", c, {"changed": changed(b, a), "effects": eff}, "nothing")
             elif k == "tostring":
                 d = dec(c["d"])
+                if c.get("rich"):
+                    d = _enrich(d)          # values of the other types the formatters accept: numpy arrays / scalars, Path objects
                 for F in (NativeFormatter, FoamFormatter, JsonFormatter, XmlFormatter):
                     arg = copy.deepcopy(d)
                     try:
                         F().to_string(arg)
                     except Exception:  # noqa: BLE001
                         pass
-                    if not same(arg, d):
-                        ctx.violation(f"{F.__name__}.to_string modified the dict passed in", c, enc(arg), c["d"])
+                    if _typed(arg) != _typed(d):
+                        ctx.violation(f"{F.__name__}.to_string modified the dict passed in", c, _typed(arg), _typed(d))
             elif k == "name":
                 name = create_target_file_name(Path("/x") / c["name"], prefix=c.get("prefix"), scope=c.get("scope"), output=c.get("output")).name
                 if c.get("prefix") and not name.startswith(c["prefix"].removesuffix(".") + "."):
@@ -327,7 +355,7 @@ def run(ctx: Ctx) -> None:
         d = gen.tree_dict(rng, 3, 4, leaf=lambda r: gen.scalar(r, strings=False), key_fn=lambda r: ("_" if r.random() < 0.25 else "") + gen.word(r))
         if rng.random() < 0.5:
             d["solver"] = {"_attributes": {"a": 1}, "tol": 1, "inner": {"_cache": [1, 2], "lst": [{"_tmp": 1, "keep": 2}]}}
-        cases.append({"kind": "tostring", "d": enc(d)})
+        cases.append({"kind": "tostring", "d": enc(d), **({"rich": True} if rng.random() < 0.4 else {})})
     for _ in range(ctx.n(300, 5000)):
         nm = rng.choice(["foo", "foo.cpp", "parsed.foo", "parsed", "a.b.c", ".hidden", "x.", "parsedXfoo", "my file.dict", gen.word(rng) + rng.choice(["", ".x", ".json"]),
                          "Parsed.results", "PARSED.case1.cpp", "Parsed.case2.cpp", "pArSeD.x", "Parsed", "PARSED.", "parsed.parsed.foo", "parsed.Parsed.foo", "PRE.a", "Pre.a.b",
